@@ -33,6 +33,8 @@ CONFIGS = [
      ["-enable=dupCase,assignOp,elseif,sloppyLen,wrapperFunc,captLocal,hugeParam", "-disable="]),
     ("bytag", ["-enable=#diagnostic,#performance", "-disable=#experimental"], ["-enable=#diagnostic,#performance", "-disable=#experimental"]),
     ("go116", ["-enableAll", "-go=1.16"], ["-enable-all", "-go=1.16"]),
+    ("go112", ["-enable=octalLiteral,wrapperFunc,syncMapLoadAndDelete,timeExprSimplify,badSyncOnceFunc,rangeAppendAll", "-disable=", "-go=go1.12"],
+     ["-enable=octalLiteral,wrapperFunc,syncMapLoadAndDelete,timeExprSimplify,badSyncOnceFunc,rangeAppendAll", "-disable=", "-go=go1.12"]),
     ("params", ["-enableAll", "-@hugeParam.sizeThreshold=8", "-@captLocal.paramsOnly=false", "-@ifElseChain.minThreshold=1"],
      ["-enable-all", "-@hugeParam.sizeThreshold=8", "-@captLocal.paramsOnly=false", "-@ifElseChain.minThreshold=1"]),
     ("notests", ["-enableAll", "-checkTests=false"], ["-enable-all", "-test=false"]),
@@ -115,7 +117,7 @@ def run(ctx):
                      % (fe, len(names), len(full), missing[:8], extra[:8]), {"frontend": fe, "missing": missing, "extra": extra})
 
     # diagnostics equality
-    cfgs = CONFIGS if thorough else CONFIGS[:7]
+    cfgs = CONFIGS if thorough else CONFIGS[:8]
     compared = 0
     total = 0
     samples = []
@@ -132,11 +134,13 @@ def run(ctx):
         base = res["cli"]
         total += len(base)
         if not base and name != "notests":
+            if ctx.violations:
+                continue        # a front-end crashed in this configuration: that is the verdict
             raise vlib.Infra("no diagnostics for configuration %s" % name)
         if name == "userrules":
             allfe = [l for fe in res for l in res[fe]]
             pk = {m.group(1) for l in allfe for m in [re.search(r"/(p\d)/[^/]+: ruleguard: pkgdep", l)] if m}
-            if len(pk) < 3 or not any("commentFormatting" in l and "doc.go" in l for l in allfe):
+            if not ctx.violations and (len(pk) < 3 or not any("commentFormatting" in l and "doc.go" in l for l in allfe)):
                 raise vlib.Infra("the package-dependent user rules / declaration-less files are not exercised (packages with pkgdep lines: %s)" % sorted(pk))
         if len(samples) < 3 and base:
             samples.append({"config": name, "line": base[0]})
